@@ -7,6 +7,7 @@
 package main
 
 import (
+	"path/filepath"
 	"fmt"
 	"go/types"
 	"strings"
@@ -237,6 +238,35 @@ func (w *World) mErgoDir(ex *Exec, c *callCtx) Value {
 }
 
 func mJoinGeneric(ex *Exec, c *callCtx) Value {
+	if sl, ok := c.args[0].(RefV); ok && len(sl.Alts) == 1 {
+		if st, ok := sl.Alts[0].Tgt.(SliceT); ok && st.Len.IsConst() {
+			arr := st.Arr.val.(ArrayV)
+			var parts []string
+			all := true
+			for i := 0; i < int(st.Len.SVal()); i++ {
+				l, ok := litOf(arr.E[st.Off+i])
+				if !ok {
+					all = false
+					break
+				}
+				parts = append(parts, l)
+			}
+			if all {
+				return StrLit(filepath.Join(parts...))
+			}
+			if treeOn && int(st.Len.SVal()) == 2 {
+				// Join(<choice of literals>, literal)
+				if b, ok := litOf(arr.E[st.Off+1]); ok {
+					if r, ok := overLits(arr.E[st.Off], func(l string) *Term { return StrLit(filepath.Join(l, b)).T }); ok {
+						return StrV{T: r}
+					}
+				}
+			}
+		}
+	}
+	if ex.world != nil && ex.world.active {
+		return ex.world.mJoin(ex, c)
+	}
 	sl := c.args[0].(RefV)
 	st := sl.Alts[0].Tgt.(SliceT)
 	arr := st.Arr.val.(ArrayV)
@@ -256,7 +286,12 @@ func (w *World) mJoin(ex *Exec, c *callCtx) Value {
 	n := int(st.Len.SVal())
 	acc := arr.E[st.Off].(StrV).T
 	for i := 1; i < n; i++ {
-		acc = UF("pathjoin", SInt, acc, arr.E[st.Off+i].(StrV).T)
+		nx := arr.E[st.Off+i].(StrV).T
+		if acc == w.dirAtom && w.dirAtom != nil && nx == IntC(Lits.Code(".ergo")) {
+			acc = UF("ergodir", SInt, w.dirAtom) // <project root>/.ergo is the store directory
+			continue
+		}
+		acc = UF("pathjoin", SInt, acc, nx)
 	}
 	return StrV{T: acc}
 }
